@@ -781,6 +781,10 @@ func writeRespSlices(w *bufio.Writer, s *vt.Sched, tag string) int {
 	for _, ev := range s.Log {
 		fn := siteFunc(ev.Site)
 		switch {
+		case ev.Kind == "plainW" && siteTab[ev.Site].Field == "Response.res":
+			emit(ev.Obj, "rstore")
+		case ev.Kind == "plainR" && siteTab[ev.Site].Field == "Response.res":
+			emit(ev.Obj, "rload")
 		case ev.Kind == "send" && fn == "Response.Send":
 			emit(ev.Owner, fmt.Sprintf("rsend %d", num(ev.Owner, ev.Val)))
 		case ev.Kind == "close" && fn == "Response.Close":
